@@ -55,6 +55,8 @@ impl<Pr: BitArray, const P: usize> EncoderModel<P> for Cuts<Pr, P> {
 impl<Pr: BitArray, const P: usize> DecoderModel<P> for Cuts<Pr, P> {
     #[inline(always)]
     fn quantile_function(&self, q: Pr) -> (u8, Pr, Pr::NonZero) {
+        // like the library's lookup and quantiser models: a decoder must only pass quantiles < 2^P
+        assert!(P >= Pr::BITS || q < (Pr::one() << P));
         let s = if q < self.c1 {
             0
         } else if q < self.c2 {
